@@ -14,7 +14,8 @@ ASSUMPTIONS = [
 ]
 
 # related names: prefixes / suffixes / case variants of one another (a lookup must be exact)
-NAMES = ["a", "b", "c", "work", "home", "x1", "daily", "g", "work_old", "wo", "ab", "x", "x12", "Work", "day", "days", "ho"]
+NAMES = ["a", "b", "c", "work", "home", "x1", "daily", "g", "work_old", "wo", "ab", "x", "x12", "Work", "day", "days", "ho",
+         "wk{{1}}", "{inbox}"]       # a group NAME is never formatted: braces in it are plain characters
 FILES = ["foo.zo", "bar.zo", "sub/baz.zo", "2024/notes.zo", "p q.zo", "x@y.zo", "a.b.zo", "zo"]
 PATTERNS = ["{yyyymmdd[%d]}.zo", "{days[%d].year}/{yyyymmdd[%d]}.zo", "log/{days[%d].year}-{days[%d].month}-{days[%d].day}.zo",
             "d{days[%d].day}", "{days[%d].month}/x.zo"]
